@@ -53,6 +53,8 @@ func init() {
 			{ID: "C10.R28", Text: "join order is well defined: every join time the library creates is time.Now().UnixNano() and every other store into a ClusterJoinTime field is a copy of one (a coarser reading makes members tie and swap numbers between rounds)", Run: joinTimeResolution},
 			{ID: "C10.R29", Text: "announcements are applied in the order they were made: every Publish on the membership topic is a plain synchronous call, never go/defer", Run: publishSynchronous},
 			{ID: "C10.R30", Text: "a numbering that differs from the one in effect reaches the stream whenever it is announced: the bus listener calls Stream.Rebalance on every path, also while the stream is closed or re-opening (same rule as C11.R7)", Run: c11r7},
+			{ID: "C10.R32", Text: "every notice of the lease reaches the election handler: the elector callbacks evaluated whole — OnStartedLeading → OnBecomeLeader once, OnStoppedLeading → OnResignLeader once, OnNewLeader → OnBecomeFollower(identity of the notice) once ⇔ the holder is not this member, with no memory of earlier notices (a leader restarted in place must be registered with again)", Run: electorCallbacksExact},
+			{ID: "C10.R33", Text: "two members never both rewrite the membership index: the update is a compare-and-swap along the whole chain — the monitor round hands on the Cas of the index document it read, the index update passes it for the index key, and the document update copies a given Cas into the mutation it sends", Run: indexCasChain},
 			{ID: "C10.R31", Text: "a numbering sent through the API reaches the membership: every route has exactly one handler, a method of the API object, and the application-wide middlewares are the metrics and pprof ones", Run: apiRoutesExact},
 			{ID: "C10.R5", Text: "Couchbase membership: lastActiveInstances is written only in the numbering step after the publish decision; on CAS mismatch the round is restarted (monitor re-entered), nothing is rewritten", Run: c10r5},
 		},
